@@ -96,9 +96,32 @@ theorem vote_transaction (H : Bytes → Bytes) (s : State) (id : Bytes) (a : Add
     | some r => obtain ⟨info, released⟩ := r; simp [exec, plan, h, hcp, hca, hv, runPlan]
 
 /-- No other transaction touches a vote ledger entry. -/
-theorem other_transactions_dont_vote (H : Bytes → Bytes) (s : State) (op : Op) (id : Bytes) (h : ∀ a, op ≠ .vote id a) :
-    voteEntry (step H s op) id = voteEntry s id := by
-  unfold voteEntry; rw [votes_sigs_frame H s op id h]
+theorem other_transactions_dont_vote (H : Bytes → Bytes) (s : State) (op : Op) (id : Bytes) (h : ∀ a, op ≠ .vote id a)
+    (hd : ∀ sg r c cc, op ≠ .deposit sg r c id cc) : voteEntry (step H s op) id = voteEntry s id := by
+  unfold voteEntry; rw [votes_sigs_frame H s op id h hd]
+
+/-- The vote handler (VoteHandler.MakeDepositProposal) hands a source transaction on only when the relayer signed, is a
+current consensus validator, and its vote is the one that releases the ledger entry (first quorum); a transaction
+already marked done, or a payload that does not decode, is refused (and the vote reverted). -/
+theorem deposit_released_only_at_quorum (H : Bytes → Bytes) (s : State) (sg : List Addr) (relayer : Addr) (chain : Nat)
+    (id : Bytes) (ccid : Option Bytes) (o : Out) (h : exec H s (.deposit sg relayer chain id ccid) = .ok o)
+    (hr : o.ret = "1") :
+    witness sg relayer = true ∧ (voteEntry s id).1 = false ∧
+    ∃ gv pool cons info c, curPool s = some (gv, pool) ∧ consAddrs s pool = some cons ∧
+      voteStep (voteEntry s id) cons relayer = some (info, true) ∧ ccid = some c ∧ (chain, c) ∉ s.doneTx ∧
+      o.st = { s with votes := alPut s.votes id info, doneTx := s.doneTx ++ [(chain, c)] } := by
+  unfold voteEntry
+  cases hp : plan H s (.deposit sg relayer chain id ccid) with
+  | error e => simp [exec, hp] at h
+  | ok p =>
+    simp only [exec, hp] at h
+    simp only [plan] at hp
+    repeat' split at hp
+    all_goals try (cases hp; done)
+    all_goals (injection hp with hp; subst hp; simp only [runPlan] at h; injection h with h; subst h)
+    all_goals try (simp at hr; done)
+    rename_i hw hst _ gv pool hcp _ cons hca _ info hvs _ c hdone
+    refine ⟨by simpa using hw, by simpa using hst, gv, pool, cons, info, c, hcp, hca, hvs, rfl, by simpa using hdone, rfl⟩
 
 /-- Non-vacuity (tests on literals): 4 validators; an outsider is rejected, a repeat does not count, the third distinct
 validator releases, the fourth comes too late. -/
